@@ -6,6 +6,7 @@
 package cluster
 
 import (
+	"bufio"
 	"fmt"
 	"io"
 	"net"
@@ -338,3 +339,34 @@ func (c *Cluster) CrashLines() map[int]string {
 }
 
 var _ = io.EOF
+
+// Grep streams a node's whole output and returns the last `last` lines shorter than maxLine that contain one of the
+// (lower-case) substrings.
+func (c *Cluster) Grep(id int, subs []string, maxLine, last int) []string {
+	f, err := os.Open(filepath.Join(c.Nodes[id-1].Dir, "server.out"))
+	if err != nil {
+		return nil
+	}
+	defer f.Close()
+	var out []string
+	br := bufio.NewReaderSize(f, 1<<20)
+	for {
+		line, err := br.ReadSlice('\n')
+		if len(line) > 0 && len(line) < maxLine && err != bufio.ErrBufferFull {
+			low := strings.ToLower(string(line))
+			for _, s := range subs {
+				if strings.Contains(low, s) {
+					out = append(out, strings.TrimRight(string(line), "\n"))
+					if len(out) > last {
+						out = out[1:]
+					}
+					break
+				}
+			}
+		}
+		if err != nil && err != bufio.ErrBufferFull {
+			break
+		}
+	}
+	return out
+}
